@@ -85,6 +85,12 @@ CHECKS["C07"] = dict(
     text="TLC enumerates every segment sequence up to 2 (thorough 3) segments over 7 segment classes for each of manifest.root, directory rel_path, file rel_path / FileBegin and item.id, in both root-directory modes with resume on and off, and checks that the guard rejects the value or the cleaned target stays below the output directory (the pinned commit's guards are refuted). Every case is then transmitted by a scripted sender to the real RecvManifestMultiStream; nothing around the output directory may be created, modified or deleted.",
     note="trusted: TLC as enumerator and oracle of the guard decision; the snapshot of the jail; Unix semantics")
 
+CHECKS["C13"] = dict(
+    category="exploration", design_ref="5.8",
+    technique="TLA+ spec Scan.tla (universe forest, ordinal-prefix rule and walk transcribed as set comprehensions) enumerated exhaustively with TLC; the real ScanPaths and buildPathResolver run on every enumerated path list over the materialised forest and are compared with the spec's expected manifest and an independent oracle",
+    text="The specification computes, for every list of up to 3 paths over 10 candidates of a forest containing every node kind and name-collision pattern, the manifest that must result (and shows at design level that the ordinal-prefix scheme can produce duplicate paths). The real ScanPaths/resolver are run on each of the 1110 lists with several spellings; the output must equal the expected manifest and satisfy uniqueness, order, totals, resolvability, size = readable bytes and determinism.",
+    note="trusted: TLC as enumerator and reference implementation; a fixed forest, not arbitrary trees")
+
 NOT_APPLICABLE = {}
 
 HOOK_COMMITS = ["6b59734", "6335744"]
